@@ -31,6 +31,54 @@ def signature_micro(c):
     return "to-micros-other"
 
 
+FLUSH_CFG = """role r
+  :noop true
+  spotlight sleep 30
+end
+cast
+  x plays r
+end
+script
+  tempo 1s
+  scene a entails for x: noop
+  storyline ..a....
+end
+"""
+
+
+def flush_ticker_play(binpath):
+    """The collector's flush ticker is the one user of timeutil.Timer in the
+    play: Reset(1s) after every receive.  A play that collects nothing during
+    its first second and records its first action at t=2s must have flushed
+    that row to csv/x.csv well before the play ends at t=7s (the ticker fires
+    every second).  Checked at t=5s: three ticker periods of slack."""
+    import subprocess
+    import time as _t
+    tmp = tempfile.mkdtemp(prefix="shk-c18-flush-")
+    try:
+        with open(os.path.join(tmp, "play.cfg"), "w") as f:
+            f.write(FLUSH_CFG)
+        t0 = _t.time()
+        p = subprocess.Popen([binpath, "-o", "out", "--disable-plots", "-q", "play.cfg"], cwd=tmp,
+                             stdout=subprocess.PIPE, stderr=subprocess.STDOUT, env=dict(os.environ, SHELL="/bin/bash"))
+        _t.sleep(5.0)
+        alive = p.poll() is None
+        sizes = {}
+        for root, _, files in os.walk(os.path.join(tmp, "out")):
+            for fn in files:
+                if fn.endswith(".csv"):
+                    sizes[fn] = os.path.getsize(os.path.join(root, fn))
+        try:
+            out, _ = p.communicate(timeout=120)
+        except subprocess.TimeoutExpired:
+            p.kill()
+            out = b""
+        return {"alive_at_5s": alive, "csv_sizes_at_5s": sizes, "exit": p.returncode,
+                "wall_s": round(_t.time() - t0, 2), "output_tail": out.decode("utf-8", "replace")[-800:]}
+    finally:
+        shutil.rmtree(tmp, ignore_errors=True)
+
+
 def run(tier, seed):
     res = vlib.Result(PID, tier, seed, level="proof")
     res.assumptions = [
@@ -45,11 +93,14 @@ def run(tier, seed):
                       {"kind": "proof-obligation", "detail": detail}, no_input=True)
         return res.finish()
     try:
-        bins = vlib.build_bins(["c18"])
+        bins = vlib.build_bins(["c18", "shakespeare"])
     except vlib.BuildError as e:
         res.violation(None, "harness does not build against the current tree",
                       {"kind": "correspondence-build", "what": e.what, "output": e.output[-4000:]}, no_input=True)
         return res.finish()
+    import concurrent.futures as _cf
+    _ex = _cf.ThreadPoolExecutor(max_workers=1)
+    flush_future = _ex.submit(flush_ticker_play, bins["shakespeare"])
     out = tempfile.mkdtemp(prefix="shk-c18-")
     try:
         rc, o = vlib.run([bins["c18"], "-seed", str(seed), "-tier", tier, "-out", out], timeout=1800)
@@ -136,4 +187,11 @@ def run(tier, seed):
                               {"kind": "correspondence", "query": name, "n_disagreements": len(vals[name]), "first": c},
                               no_input=True)
     res.coverage["disagreements"] = {k: len(v) for k, v in vals.items()}
+    fl = flush_future.result()
+    res.coverage["collector_flush_ticker_play"] = fl
+    if fl["alive_at_5s"] and not any(v > 0 for v in fl["csv_sizes_at_5s"].values()):
+        res.violation("collector-flush-ticker-stopped",
+                      "the collector's flush ticker (timeutil.Timer: Read set, Reset(1s) after every receive) no longer fires once per second: a row recorded at t=2s is still not in csv/ at t=5s of a 7s play",
+                      {"kind": "failing-input", "config": FLUSH_CFG, "observed": fl,
+                       "replay": "shakespeare -o out --disable-plots -q play.cfg; look at out/*/csv/x.csv 5 s after the start"})
     return res.finish()
